@@ -19,6 +19,8 @@
 
 static inline uint32_t vg_f32_bits(float f) { union { float f; uint32_t u; } x; x.f = f; return x.u; }
 extern size_t vg_k;         /* skolem witness: an arbitrary index into the appended bytes */
+extern size_t vg_slen;      /* ghost: length strlen reported */
+extern size_t vg_mem_i;     /* witness index of the memcpy model (stubs/mem_model.c) */
 extern size_t vg_o;         /* skolem witness: an arbitrary byte offset */
 extern size_t vg_len0, vg_cur0, vg_end0, vg_alloc0;      /* ghost: length, cursor offset, end offset on entry */
 extern uint8_t vg_byte0;    /* ghost: byte at vg_o on entry */
